@@ -46,6 +46,8 @@ def trailing(rng, kind):
         return b"\xff\xfe more = text\n"
     if kind == "late-bad":
         return b" " * 9000 + b"\xff\xff"
+    if kind == "bad-first":      # image data that starts right after END with a byte that is not text
+        return rng.choice([b"\x89PNG\r\n\x1a\n\x00\x00\x00\rIHDR", b"\xff\xd8\xff\xe0JFIF", b"\xe2\x82BM6\x04\x00\x00"])
     return b""
 
 
@@ -112,16 +114,19 @@ def run(ctx):
                 continue
             sep = rng.choice(["\n", "\r\n", " ", ";", ";\n", "\n\n", "\t"])
             label = body + "\n" + rng.choice(["END", "End", "end"]) + sep
-            for kind in ("none", "binary", "utf8", "nul", "longrun", "bad-then-text", "late-bad"):
-                data = label.encode("ascii") + trailing(rng, kind)
-                res = entry_points(tmp, data, label)
+            for kind in ("none", "binary", "utf8", "nul", "longrun", "bad-then-text", "late-bad", "bad-first"):
+                lab = label
+                if kind == "bad-first":
+                    lab = label[:len(label) - len(sep)]      # no separator at all between END and the data
+                data = lab.encode("ascii") + trailing(rng, kind)
+                res = entry_points(tmp, data, lab)
                 evals += len(res)
                 for name, r in res.items():
                     stats["%s:%s:%s" % (kind, name, "ok" if "ok" in r else r["fail"])] += 1
                     if bad is None and ("ok" not in r or r["ok"] != want):
                         bad = {"what": "entry point %s with trailing %s bytes after END gives %s instead of the module "
                                        "of the label alone" % (name, kind, "a different module" if "ok" in r else r["fail"]),
-                               "entry": name, "trailing_kind": kind, "label": label, "data_hex": data[:4000].hex(),
+                               "entry": name, "trailing_kind": kind, "label": lab, "data_hex": data[:4000].hex(),
                                "result": r, "expected": want}
                 if i % 20 == 0 and kind == "binary" and len(samples) < 4:
                     samples.append({"label": label[:120], "trailing": kind})
